@@ -91,8 +91,9 @@ func runHistoryMV(e *emitter, c *histConf, opts histOpts, prop string, after fun
 			st = next
 		} else {
 			mgr := updaters[e.rng.Intn(len(updaters))]
-			ver, ok := updVer[mgr] // each updater identity keeps one version
-			if !ok {
+			ver, ok := updVer[mgr] // an updater identity mostly keeps its version ...
+			if !ok || (prop == "C19" && e.rng.Intn(3) == 0) {
+				// ... but may come back at another one, where other fields are ignored
 				ver = c.versions[e.rng.Intn(len(c.versions))].name
 				updVer[mgr] = ver
 			}
